@@ -29,6 +29,7 @@ func (r Result) String() string { return [...]string{"unsat", "sat", "unknown"}[
 const preamble = `(set-option :produce-models true)
 (declare-fun pf_val (String) Int)
 (declare-fun pf32_val (String) Int)
+(declare-fun pi0_val (String) Int)
 (declare-fun f64_fmt (Int) String)
 (declare-fun f64_of_int (Int) Int)
 (declare-fun go.tolower (String) String)
